@@ -148,6 +148,12 @@ func (w *world) oracleCachedXDS(lbl map[string]string, nss []string) string {
 	for round := 0; round < 2; round++ {
 		for _, ns := range nss {
 			p := w.proxyFor(ns, lbl)
+			// one DNS domain for every namespace (DNS_DOMAIN can be set per proxy): the cache keys of proxies of
+			// different namespaces then only differ in what really depends on the namespace
+			// (O11, open) with p.DNSDomain = "mesh.cluster.local" set here the M2 mutation (alias names dropped from the RDS
+			// cache key) is caught, but unmutated HEAD then also differs: two services on one (hostname, namespace) key
+			// exported to different namespaces share an RDS cache key, and a proxy of one namespace is served the
+			// virtual host (VIP domain) cached for the other. Left off until that is analysed.
 			if a, b := strings.Join(w.routeVirtualHostsWith(gen, p, true), ","), strings.Join(w.routeVirtualHosts(p, true), ","); a != b {
 				return "cached-rds-differs-from-uncached " + ns + " " + wire.Enc(firstDifference(a, b))
 			}
